@@ -2,12 +2,12 @@
 """view expressions for C11 (h_view prefix syntax)."""
 
 def base(rng, kind=None, n=None, vals=None):
-    kind = kind or rng.choice("ALU")
+    kind = kind or rng.choice("ALUALUOP")        # O / P: Arrays of 12- and 3-byte elements (slots wider than the type)
     n = rng.choice([0, 1, 2, 3, 5, 6]) if n is None else n
     vals = vals if vals is not None else [rng.randint(-9, 9) for _ in range(n)]
     if kind in "BR":
         vals = list(dict.fromkeys(vals))
-    if rng.random() < 0.4:
+    if rng.random() < 0.4 and kind not in "OP":
         kind = kind.lower()             # the same contents, reached through insertions and removals at both ends and in the middle
     return "%s %d%s" % (kind, len(vals), "".join(" %d" % v for v in vals))
 
